@@ -696,7 +696,8 @@ func c02gno(c *engine.Ctx, p *engine.Prog) {
 		ok := false
 		if site != nil {
 			for _, gt := range r.Fn.Graph().Gates(site) {
-				if gt.OnTrue && condCallsMethod(gt.Cond, "IsOK") && len(engine.Atoms(gt.Cond)) == 1 && !isNot(gt.Cond) {
+				// `if result.IsOK() { commit }` or `if !result.IsOK() { return }; commit`
+				if condCallsMethod(gt.Cond, "IsOK") && len(engine.Atoms(gt.Cond)) == 1 && gt.OnTrue == !isNot(gt.Cond) {
 					ok = true
 				}
 			}
